@@ -360,6 +360,7 @@ def run(chk, repo, tier):
     run_r10(chk, repo)
     run_r11_r12(chk, repo)
     run_r8(chk, repo)
+    run_r13_r14(chk, repo)
 
 
 def run_more(chk, repo):
@@ -691,3 +692,85 @@ def run_r11_r12(chk, repo):
                               witness='II = 12.5 in the data file is read as 12 (also 1.25D1), and stays so after write/read')
     if n12 < 3:
         raise AnalysisError(f'R12: only {n12} ratio-scale columns found in create_nonmem_datainfo')
+
+
+def run_r13_r14(chk, repo):
+    """R13: IGNORE=(COL.op.value) removes the records for which the comparison holds and keeps ALL others, also those whose
+    item is missing (NaN): the kept set is the negation of the whole query, `not(col op value)`; a complemented operator
+    (`>=` for `<`) is false for NaN as well and drops those records too. R14: when $INPUT lists more columns than the file has,
+    the missing items are filled with the NULL value of the record (NULL=..), as text, before the filters are applied"""
+    from sa.cfg import CFG
+    from sa import reach
+    dm = repo.module('pharmpy.model.external.nonmem.dataset')
+    f = dm.functions.get('_filter_ignore_accept')
+    if f is None:
+        raise AnalysisError('R13: _filter_ignore_accept not found')
+    R13 = chk.rule('R13', '_filter_ignore_accept: for IGNORE the query given to DataFrame.query is the negated comparison '
+                          '(not(...) / ~), never a comparison with the complemented operator', floor=2)
+    cfg = CFG(f.node)
+    n = 0
+    for nd in cfg.nodes.values():
+        if nd.ast is None or nd.kind != 'stmt':
+            continue
+        for c in [c for c in ast.walk(nd.ast) if isinstance(c, ast.Call) and isinstance(c.func, ast.Attribute)
+                  and c.func.attr in ('query', 'eval') and c.args]:
+            n += 1
+            a = c.args[0]
+            texts = []
+            if isinstance(a, ast.Name):
+                texts = [unparse(v) for _i, v in (reach.values(cfg, nd.id, a.id) or [])]
+            else:
+                texts = [unparse(a)]
+            negated = [t for t in texts if 'not(' in t.replace(' ', '') or 'not ' in t or '~' in t]
+            # the negation must be the one chosen for IGNORE: it is assigned under a test of `ignore`
+            under_ignore = False
+            if isinstance(a, ast.Name):
+                for i_, v in (reach.values(cfg, nd.id, a.id) or []):
+                    if 'not' in unparse(v) or '~' in unparse(v):
+                        under_ignore = under_ignore or any(
+                            t.kind == 'test' and 'ignore' in unparse(t.ast) and cfg.edge_dominates(t.id, 'true', i_)
+                            for t in cfg.nodes.values())
+            else:
+                under_ignore = bool(negated)
+            ok = bool(negated) and under_ignore
+            chk.instance(R13, f'{unparse(c)[:50]}: negated query for IGNORE: {ok}')
+            if not ok:
+                chk.violation(R13, dm.rel, f.qualname, unparse(c)[:80],
+                              'no negated form of the query reaches this call for IGNORE: with a complemented operator the '
+                              'records whose item is missing (NaN compares false both ways) are dropped as well', line=c.lineno,
+                              witness='IGNORE=(WGT.LT.50) with a record whose WGT is the missing data token: NM-TRAN keeps it, '
+                                      'the dataset loses it')
+    if n < 2:
+        raise AnalysisError(f'R13: only {n} query calls found in _filter_ignore_accept')
+    R14 = chk.rule('R14', 'read_nonmem_dataset: columns that $INPUT names beyond the file are filled with the text of the NULL '
+                          'value', floor=1)
+    g = dm.functions.get('read_nonmem_dataset')
+    if g is None:
+        raise AnalysisError('R14: read_nonmem_dataset not found')
+    gcfg = CFG(g.node)
+    warn = [n_ for n_ in gcfg.nodes.values() if n_.ast is not None and n_.kind == 'stmt' and 'more columns in $INPUT' in unparse(n_.ast)]
+    if not warn:
+        raise AnalysisError('R14: the "more columns in $INPUT than in the dataset" branch was not found')
+    # statements of the same branch (dominated by the warning) that add columns
+    fills = []
+    for n_ in gcfg.nodes.values():
+        if n_.ast is None or n_.kind != 'stmt' or not gcfg.dominates(warn[0].id, n_.id):
+            continue
+        a_ = n_.ast
+        if isinstance(a_, ast.Assign) and isinstance(a_.targets[0], ast.Subscript) and isinstance(a_.targets[0].value, ast.Name):
+            fills.append((n_, a_.value))
+        for c in ast.walk(a_):
+            if isinstance(c, ast.Call) and isinstance(c.func, ast.Attribute) and c.func.attr in ('reindex', 'assign', 'insert'):
+                fv = next((k.value for k in c.keywords if k.arg in ('fill_value', 'value')), None)
+                fills.append((n_, fv if fv is not None else c))
+    fills = [(n_, v) for n_, v in fills if 'columns' not in unparse(n_.ast.targets[0] if isinstance(n_.ast, ast.Assign) else n_.ast)[:12]]
+    if not fills:
+        raise AnalysisError('R14: no statement that creates the missing columns found')
+    for n_, v in fills:
+        ok = 'null_value' in unparse(v)
+        chk.instance(R14, f'{n_.text()[:60]}: filled with the NULL value: {ok}')
+        if not ok:
+            chk.violation(R14, dm.rel, g.qualname, n_.text()[:100],
+                          'the missing items are not the NULL value of the record: a filter on such a column (applied before '
+                          'the columns are parsed) compares with another text', line=n_.line,
+                          witness='$INPUT ID TIME DV FLAG with a three-column file and ACCEPT=(FLAG.EQ.0): the dataset is empty')
